@@ -224,6 +224,7 @@ struct GenOpts {
     int multi_pm = 0;              // per-mille: several small components (triangles, squares, K4, edges, isolated vertices)
     int big_core_pm = 0;           // per-mille: core of 9..12 vertices (support vectors reach |V| entries: all-vertices strategy)
     int core_sat_pm = 0;           // per-mille: force the dense-core-plus-satellites family
+    int wide_pm = 0;               // per-mille: 18..26 vertices, dimension 17..30 (work lists longer than typical block sizes)
     int hubs_pm = 0;               // per-mille: the 'hubs' family with its own structural weights
     int heavy_tail_pm = 0;         // per-mille: bimodal weights (few very heavy edges) replace the all-unit scheme
     int boundary_pm = 0;           // per-mille: a sparse graph whose size sits on a power-of-two boundary
@@ -385,6 +386,19 @@ inline GGraph gen_boundary_graph(Rng &r, const GenOpts &o) {
 // One graph in the domain of C01/C02 (simple, positive weights, exact sums) within the bounds.
 inline GGraph gen_graph(Rng &r, const GenOpts &o) {
     if (o.boundary_pm > 0 && r.chance((unsigned) o.boundary_pm)) return gen_boundary_graph(r, o);
+    if (o.wide_pm > 0 && r.chance((unsigned) o.wide_pm)) {
+        // 18..26 vertices with a cycle space of dimension 17..30: support vectors (and vertex ranges) longer than
+        // the block / grain sizes (16, 64 candidates) a parallel implementation may cut its work into
+        EL wel; int wn;
+        if (r.chance(500)) { int a = (int) r.range(2, 3), b = (int) r.range(18, 23); wn = fam_bipartite(a, b, wel); }
+        else { wn = (int) r.range(18, 24); fam_tree(r, wn, wel); int extra = (int) r.range(17, 28); for (int k = 0; k < extra; k++) add_e(wel, (int) r.below(wn), (int) r.below(wn)); }
+        dedup(wel);
+        GGraph g = from_el(wn, wel); g.family = "wide";
+        GenOpts o2 = o; o2.max_weight = std::min<int64_t>(o.max_weight, 1000);
+        assign_weights(r, g, o2);
+        relabel_and_shuffle(r, g);
+        return g;
+    }
     if (o.hubs_pm > 0 && r.chance((unsigned) o.hubs_pm)) {
         EL hel; std::vector<int64_t> hw;
         int hn = fam_hubs(r, std::max(o.max_n, 20), hel, hw);
